@@ -121,8 +121,9 @@ WorkerOf(l) == <<lnode[l], l[2], lmode[l], lw[l]>>
 
 \* ---- mode resolution
 HdrMode(h) == CASE h = "0" -> "sync" [] h = "1" -> "async" [] OTHER -> "default"
-\* the mode argument that reaches Multimodal.Request
-ModeArg(h) == IF ViaHTTP /\ QHeaderIgnored THEN "sync" ELSE HdrMode(h)
+\* the mode argument that reaches Multimodal.Request (via: through the HTTP handlers)
+ModeArgL(via, h) == IF via /\ QHeaderIgnored THEN "sync" ELSE HdrMode(h)
+ModeArg(h) == ModeArgL(ViaHTTP, h)
 \* Multimodal.Request: the pool that serves the mode on node n
 PoolMode(n, m) == CASE m = "sync"  -> "sync"
                     [] m = "async" -> "async"
@@ -245,10 +246,11 @@ DrawOK(d, nd) ==
     /\ (Refused(d) => \A k \in Kinds : nd[k] = CHOOSE n \in Nodes : TRUE)        \* (nothing is drawn)
     /\ (d \in Nodes => \A k \in Kinds : nd[k] = d)                               \* (nothing is drawn)
     /\ (d \notin Nodes /\ ~QSplit => \A k1, k2 \in Kinds : nd[k1] = nd[k2])       \* one draw for the push
-RouteOutcome(d, h, nd) ==
+RouteOutcomeL(via, d, h, nd) ==
     [ st   |-> IF Refused(d) THEN "rejected" ELSE "routed",
       node |-> [k \in Kinds |-> IF Refused(d) THEN "none" ELSE nd[k]],
-      pool |-> [k \in Kinds |-> IF Refused(d) THEN "none" ELSE PoolMode(nd[k], ModeArg(h))] ]
+      pool |-> [k \in Kinds |-> IF Refused(d) THEN "none" ELSE PoolMode(nd[k], ModeArgL(via, h))] ]
+RouteOutcome(d, h, nd) == RouteOutcomeL(ViaHTTP, d, h, nd)
 
 Route(r, d, h, nd) ==
     /\ rst[r] = "new"
@@ -527,11 +529,14 @@ WdUp(n)   == /\ ~wdExited /\ ~up[n] /\ up' = [up EXCEPT ![n] = TRUE]
 \* the services one Check looks at: all of them, or [QWdFirst] one service of the first kind (nd = Go's map order)
 WdLooksAt(nd) == IF QWdFirst THEN { <<nd, WdKinds[1]>> } ELSE Svc
 
+\* the verdict of one Check when the services in S are stale: TRUE = error = os.Exit(1)
+WdVerdict(nd, S) == WdLooksAt(nd) \cap S # {}
+
 WdCheck(nd) ==
     /\ ~wdExited /\ ~wdDone /\ now > 0 /\ now % Period = 0 /\ nd \in Nodes
     /\ (~QWdFirst => nd = CHOOSE n \in Nodes : TRUE)
     /\ wdDone' = TRUE
-    /\ IF WdLooksAt(nd) \cap StaleSet # {}
+    /\ IF WdVerdict(nd, StaleSet)
          THEN wdExited' = TRUE /\ wdStaleAtExit' = StaleSet /\ UNCHANGED wdSkipped
          ELSE /\ wdSkipped' = wdSkipped \cup StaleSet     \* stale services this Check did not report
               /\ UNCHANGED <<wdExited, wdStaleAtExit>>
